@@ -267,4 +267,51 @@ Proof.
   destruct o; reflexivity.
 Qed.
 
+(* ---------------------------------------------------------------- blocks that always return *)
+Lemma stmt_ret_if : forall ph c (t f : list (astmt A)), stmt_ret (ASIf ph c t f) = blk_ret t && blk_ret f.
+Proof. reflexivity. Qed.
+Lemma stmt_ret_ctx : forall x e (body : list (astmt A)), stmt_ret (ASContext x e body) = blk_ret body.
+Proof. reflexivity. Qed.
+
+Lemma snd_mbind_inv' : forall X Y (m : M A X) (f : X -> M A Y) y,
+  snd (mbind m f) = ROk y -> exists x, snd m = ROk x /\ snd (f x) = ROk y.
+Proof.
+  intros X Y [t [x|e|]] f y H; cbn in H; try discriminate.
+  exists x. split; auto. destruct (f x). exact H.
+Qed.
+
+Definition is_return (o : ioutcome A) : Prop := match o with IOReturn _ => True | IONormal _ _ => False end.
+
+Lemma always_returns : forall n,
+  (forall st s D mu C o mu', stmt_ret st = true -> snd (iexec n s D mu C st) = ROk (o, mu') -> is_return o) /\
+  (forall b s D mu C o mu', blk_ret b = true -> snd (iexec_block n s D mu C b) = ROk (o, mu') -> is_return o).
+Proof.
+  induction n as [|n [IHs IHb]]; [split; intros; discriminate|]. split.
+  - intros st s D mu C o mu' Hr H. rewrite iexec_S in H.
+    destruct st; try discriminate Hr; cbn [iexec_body] in H.
+    + (* if *) rewrite stmt_ret_if in Hr. apply andb_prop in Hr. destruct Hr as [Ht Hf].
+      apply snd_mbind_inv' in H. destruct H as ([vc mu1] & _ & H).
+      apply snd_mbind_inv' in H. destruct H as (b & _ & H).
+      apply snd_mbind_inv' in H. destruct H as ([o1 mu2] & Hb & H).
+      assert (R1 : is_return o1) by (destruct b; [eapply (IHb ift) | eapply (IHb iff)]; eassumption).
+      unfold after_phis in H. cbn [fst] in H. destruct o1; [destruct R1|]. cbn in H. inversion H; subst. exact I.
+    + (* with *) rewrite stmt_ret_ctx in Hr.
+      apply snd_mbind_inv' in H. destruct H as ([vc mu1] & _ & H).
+      destruct vc; try discriminate. destruct x as [[a x]|].
+      * apply snd_mbind_inv' in H. destruct H as (u & _ & H). eapply IHb; eauto.
+      * eapply IHb; eauto.
+    + (* return *) apply snd_mbind_inv' in H. destruct H as ([v mu1] & _ & H). cbn in H. inversion H; subst. exact I.
+  - intros b s D mu C o mu' Hr H. rewrite iexec_block_S in H.
+    destruct b as [|st r]; [discriminate|]. cbn [iexec_block_body] in H.
+    apply snd_mbind_inv' in H. destruct H as ([o1 mu1] & Hs & H).
+    destruct o1 as [s1 D1|v]; [|cbn in H; inversion H; subst; exact I].
+    destruct r as [|st2 r].
+    + cbn [blk_ret] in Hr. exfalso. exact (IHs _ _ _ _ _ _ _ Hr Hs).
+    + eapply IHb; [|exact H]. exact Hr.
+Qed.
+
+Lemma blk_always_returns : forall n b s D mu C o mu',
+  blk_ret b = true -> snd (iexec_block n s D mu C b) = ROk (o, mu') -> is_return o.
+Proof. intros n. apply (always_returns n). Qed.
+
 End Erasure.
